@@ -60,6 +60,9 @@ var c13Bundles = [][]c13File{
 	// selecting the plural form in a message of another file
 	{{"one.soy", "{namespace a}\n/** @param c */\n{template .t}\n{msg desc=\"p\"}first: {$c[0]}{/msg}\n{/template}\n"},
 		{"two.soy", "{namespace b}\n/** @param c */\n{template .t}\n{msg desc=\"q\"}{plural $c[0]}{case 1}one{default}many{/plural}{/msg}\n{/template}\n"}},
+	// 18: files added without a name
+	{{"", "{namespace a}\n/** */\n{template .t}\nA{call b.t /}\n{/template}\n"},
+		{"", "{namespace b}\n/** @param? x */\n{template .t}\nB{$x ?: ''}\n{/template}\n"}},
 }
 
 var c13Globals = data.Map{"G_MAP": data.Map{"k2": data.Int(2), "k1": data.String("v")}, "G_LIST": data.List{data.Int(1), data.String("s")}}
@@ -114,10 +117,14 @@ func c13Run(t, perm int) (decision, errText, rest string) {
 		return "reject", err.Error(), ""
 	}
 	var out []byte
-	// by file name, so that the comparison does not depend on the insertion order
+	// by file name, so that the comparison does not depend on the insertion order (files added
+	// without a name: by source text)
 	for _, want := range files {
 		for _, f := range reg.SoyFiles {
-			if f.Name != want.name {
+			if want.name != "" && f.Name != want.name {
+				continue
+			}
+			if want.name == "" && f.Text != want.src {
 				continue
 			}
 			out = append(out, ("#" + f.Name + "\n")...)
